@@ -251,6 +251,10 @@ def run_matrix(chk, accepted, dbgs=(0, 1), args_of=lambda g: [(n, v) for (n, _, 
                 chk.violation({"class": "redeem-encoding", "what": "%s || %s" % (x[:160], g.text[:200])}, dict(base, broken="redeem program: CMR differs from commit / encoding does not decode"))
                 continue
             want = "ok" if s == "ok" else "failed"
+            if ci != want and pruned and "twins=yes" in x and ("mexec=ok" in x) == (want == "ok"):
+                chk.violation({"class": "upstream-ihr-twins", "what": g.text[:300]}, dict(base, expected=want,
+                              broken="the pruned program behaves as expected in memory but contains assertl / assertr twins with one identity hash; its encoding merges them (D13)"))
+                continue
             if ci != want and upstream_fixed is not None:
                 # does the failure disappear when only the dependency's known defect (D10) is corrected?
                 cf = classify_impl(upstream_fixed(iline))
